@@ -4,4 +4,5 @@ ID=$1; shift; P=${ID%%_*}
 cd /repo && git apply /verif/seeded/$ID/patch.diff || { echo "patch does not apply"; exit 2; }
 cd /verif && ./check $P "$@" > /tmp/try_$ID.log 2>&1; rc=$?
 cd /repo && git checkout -q -- .
+cd /verif && git checkout -q -- evidence/$P.json 2>/dev/null   # the evidence of a run on a changed tree is not kept
 echo "$ID rc=$rc :: $(grep -E '^VIOLATION|^INCONCLUSIVE' /tmp/try_$ID.log | head -3 | tr '\n' ' ') :: $(tail -1 /tmp/try_$ID.log)"
